@@ -197,6 +197,7 @@ class Rw(typing.NamedTuple):
     start: tuple           # (tag, modules) of the schema at START MIGRATION REWRITE
     own_tx: bool
     order: int
+    nmig: int = 0          # migrations recorded so far (COMMIT MIGRATION REWRITE applies them)
 
 
 class _BackendFailure(Exception):
@@ -505,7 +506,7 @@ class World:
             return mig is None and cur.rw is None
         if kind == 'rw_commit':
             return (cur.rw is not None and mig is None and cur[0][1] == cur.rw.start[1]
-                    and not ql.__dict__.get('reject_delta'))
+                    and not (ql.__dict__.get('reject_delta') and cur.rw.nmig))
         if kind == 'rw_abort':
             return cur.rw is not None
         if kind == 'gddl' and cur.rw is not None:
@@ -513,7 +514,9 @@ class World:
         if kind == 'mig_populate':
             return mig is not None
         if kind == 'mig_commit':
-            return mig is not None and cur[0][1] == mig.target and not ql.__dict__.get('reject_delta')
+            # (inside a rewrite block the migration is only recorded: nothing is applied, nothing can be rejected)
+            return mig is not None and cur[0][1] == mig.target and not (
+                ql.__dict__.get('reject_delta') and cur.rw is None)
         if kind == 'mig_abort':
             return mig is not None
         if kind == 'gddl' and mig is not None:
@@ -623,7 +626,7 @@ class World:
             m.cur = cur._replace(mig=None)
             if cur.rw is not None:
                 # inside a rewrite the block is only recorded, and the compiler adopts the target schema object
-                m.cur = m.cur._replace(schema=(cur.mig.ttag, cur.mig.target))
+                m.cur = m.cur._replace(schema=(cur.mig.ttag, cur.mig.target), rw=cur.rw._replace(nmig=cur.rw.nmig + 1))
             self.probes['migration_committed' + ('_in_rewrite' if cur.rw is not None else '')] += 1
             if cur.mig.own_tx:
                 m.base = m.cur
@@ -682,7 +685,10 @@ class World:
         elif kind == 'ddl':
             tag, mods = cur[0]
             mods = (mods | {ql.tag}) if ql.op == 'add' else (mods - {ql.tag})
-            m.set(cur._replace(schema=(tag + ('+' if ql.op == 'add' else '-') + ql.tag, mods)))
+            new = cur._replace(schema=(tag + ('+' if ql.op == 'add' else '-') + ql.tag, mods))
+            if cur.rw is not None and cur.mig is None:
+                new = new._replace(rw=cur.rw._replace(nmig=cur.rw.nmig + 1))    # recorded as a migration of its own
+            m.set(new)
         elif kind == 'gddl':
             gtag, roles = cur.gschema
             roles = (roles | {ql.tag}) if ql.op == 'add' else (roles - {ql.tag})
